@@ -1,5 +1,6 @@
-(* C01 driver.  obs = per instance:  I <codes> B... L e f
-   spec_ok (the property on the implementation alone): every instance accepted every event and all
+(* C01 driver.  obs = per instance:  I <number of rejected fed events> B... L e f
+   spec_ok (the property on the implementation alone): every instance accepted every event (required
+   when the input is valid, i.e. the reference accepts every event; shrunk inputs may not be) and all
    instances emitted the same blocks / last decided frame.
    model_obs: the extracted reference (a function of the event SET, hence the same for every
    order): all events accepted, blocks = blocks_spec. *)
@@ -19,21 +20,18 @@ let rec split_inst (toks : string list) : string list list =
 let eval inp obs =
   let s = parse inp in
   let k = (match s.extra with k :: _ -> int_of_string k | [] -> 0) in
-  let (rs, bs) = reference s.vals s.evs in
-  let all_ok = List.for_all (fun (c, _) -> tok_of_n c = "0") rs in
-  let codes = if s.nev = 0 then "-" else String.make s.nev '0' in
-  let one = ["I"; codes] @ block_tokens bs in
+  let res = run_reference s in
+  let all_ok = all_codes_zero res in
+  let one = ["I"; "0"] @ block_tokens res in
   let m = List.concat (List.init k (fun _ -> one)) in
   let insts = split_inst obs in
   let tails = List.map (fun i -> match i with _ :: _ :: t -> t | _ -> ["?"]) insts in
-  let accepted = List.for_all (fun i -> match i with
-      | _ :: c :: _ -> (let ok = ref true in String.iter (fun ch -> if ch <> '0' && ch <> '-' then ok := false) c; !ok)
-      | _ -> false) insts in
+  let accepted = List.for_all (fun i -> match i with _ :: c :: _ -> c = "0" | _ -> false) insts in
   let same = (match tails with [] -> true | t :: r -> List.for_all (fun x -> x = t) r) in
   { default_verdict with model_obs = m;
-    spec_ok = Some (accepted && same && List.length insts = k);
-    model_spec_ok = all_ok;
-    nontrivial = (bs <> []);
+    spec_ok = Some ((accepted || not all_ok) && same && List.length insts = k);
+    model_spec_ok = true;
+    nontrivial = any_block res;
     note = (if not same then "instances disagree" else if not accepted then "an instance rejected an event" else "") }
 
 let () = run eval
